@@ -49,7 +49,7 @@ class C17(Prop):
                    "cable names of the form stem[digits] or stem_digits_ are how EDIF files spell one bit of bus "
                    "'stem' (the reader reassembles them); they are not generated as names of whole cables",
                    "the netlist is built under the DEFAULT policy, so sibling names are unique as written"]
-    runs = {"quick": 2500, "thorough": 60000}
+    runs = {"quick": 12000, "thorough": 300000}
 
     def configure(self, rng, tier):
         return {"steps": 10 ** 6, "n_sib": rng.choice([2, 3, 4, 6]), "chunk_law": rng.choice(["whole", "1..64", "1..7"]),
